@@ -502,7 +502,7 @@ theorem stepE_G2 {r : Fin n} {s s' : St n} (h1 : G1 r s) (h : G2 r s) (e : Ev n)
   case eSearchEnd =>
     split at hs
     · rename_i hg; cases hs
-      exact h.root_move .ewait (s.out r) rfl rfl (by simp [setPc]) rfl rfl rfl rfl rfl hra (fun hh => hh) rfl rfl (by rw [hg.2]; intro hh; cases hh) (by rw [hg.2]; intro hh; cases hh)
+      exact h.root_move .ewait (s.out r) rfl rfl (by simp [setPc]) rfl rfl rfl rfl rfl hra (fun hh => hh) rfl rfl (by rw [hg.2.1]; intro hh; cases hh) (by rw [hg.2.1]; intro hh; cases hh)
     · cases hs
   case eQuitSend =>
     split at hs
